@@ -22,7 +22,7 @@ MUT = {
     "        if not hasattr(self, \"_default_size\"):\n            self._default_size = sts.get_settings().monte_carlo_sample_size\n"
     "        default_size = self._default_size\n        set_size = self.__settings[lit.MONTE_CARLO_SAMPLE_SIZE]\n"),
  "c02-sigma-from-relative-error": ("C02", O, "    _std = measurement.error\n",
-    "    _std = measurement.relative_error * abs(measurement.value)\n"),
+    "    _std = abs(measurement.relative_error * measurement.value)\n"),
  "c02-cholesky-remembered-per-sources": ("C02", U,
     "        chelosky_decomposition = np.linalg.cholesky(corr_matrix)\n",
     "        key = tuple(v._id for v in variables)\n        if key not in _FACTORS:\n            _FACTORS[key] = np.linalg.cholesky(corr_matrix)\n"
